@@ -174,6 +174,7 @@ def run_check(prop, tier, seed):
     notes = []
     reasons = {}
     inc_samples = {}
+    bucket_counts = {}
     for i, outp, _ in procs:
         if not os.path.exists(outp):
             continue
@@ -204,6 +205,7 @@ def run_check(prop, tier, seed):
                         excluded_known[r["known"]] = excluded_known.get(r["known"], 0) + 1
                     else:
                         b = r["bucket"]
+                        bucket_counts[b] = bucket_counts.get(b, 0) + 1
                         cur = buckets.get(b)
                         if cur is None or len(dumps(r["case"])) < len(dumps(cur["case"])):
                             buckets[b] = r
@@ -211,7 +213,7 @@ def run_check(prop, tier, seed):
 
     # ---- 4. shrink new buckets, write replay files -------------------------------------------
     shrink_budget = 20 if tier == "quick" else 120
-    for b, r in sorted(buckets.items())[:5]:
+    for b, r in sorted(buckets.items())[:8]:
         case = r["case"]
         try:
             small = minimize(mod, case, Recorder.bucket, b, tier, shrink_budget)
@@ -241,6 +243,7 @@ def run_check(prop, tier, seed):
         "inconclusive_samples": inc_samples,
         "replayed_regressions": n_replayed,
         "excluded_known": excluded_known,
+        "new_violation_buckets": bucket_counts,
         "shards": nshards,
         "notes": _merge_notes(notes),
         "harness_warnings": harness_errors[:5],
